@@ -14,6 +14,21 @@ CHECKS = {
         technique="constant folding + table algebra; abstract interpretation over GF(2)-affine bit forms (array provenance)",
         note="trusted: CPython ast, sa/bitabs.py models of bitarray/numpy subscripts, C06 for the component codes; error-correction capability for corrupted words is outside the quick tier",
         ref="DESIGN.md §3 C02"),
+    "C03": dict(
+        text="Static: every reader/writer pair of the layer-2/3 PDUs (13 classes, 48 discriminator branches) is analysed by abstract interpretation on a symbolic wire: per reader branch the object is "
+             "built through the real constructor, the writer is run on it and each output position is compared with the wire bit it must reproduce (decode-then-encode), then all fields are replaced by "
+             "symbols to find field bits that are transmitted but not decoded; crashes (Type/Attribute/Overflow errors for all or some inputs) are reported; element enumerations are evaluated over their "
+             "whole bit width for totality. Decides layout symmetry for all field values at once; float quantisation of GPS Info is not decided.",
+        technique="abstract interpretation over GF(2)-affine bit forms with path enumeration on discriminators (trace partitioning); finite-domain evaluation of enum _missing_",
+        note="trusted: CPython ast, bitarray/int operation models, enum fields assumed to hold defined members on the symmetric pass",
+        ref="DESIGN.md §3 C03"),
+    "C04": dict(
+        text="Static: per constructor path the value of each 'ok' indicator is obtained as a constant or a structural condition; FEC words: accepted set == codeword set on every path (GF(2) rank argument); "
+             "CRC PDUs: computed side covers every transmitted field bit, uses the PDU's own mask and inversion, is compared with exactly the received check bits, no path accepts without comparing "
+             "(in-band sentinel), generate->serialise->parse gives a provably True indicator. 12 sentinel findings are known (API-level) and listed in known_findings.json.",
+        technique="abstract interpretation over GF(2)-affine bit forms; CRC engines as uninterpreted functions; linear algebra on path constraints",
+        note="trusted: C05/C06 verdicts for the engines behind the summaries; error-detection capability follows from coverage + C05 and is not enumerated per error pattern; HRNP checksum is covered under C12",
+        ref="DESIGN.md §3 C04"),
     "C05": dict(
         text="Static: CRC parameters and masks folded and compared with pinned ETSI values; the real register classes are analysed by abstract interpretation over GF(2)-affine forms "
              "(exact if-conversion of the shift/xor branches; lookup table obtained by constant evaluation and indexed exactly because it is GF(2)-linear): for all five configurations, both modes "
